@@ -307,6 +307,8 @@ def run(ctx):
     r5(ctx, F)
     r6(ctx, F)
     r7_state_hands_over_every_field(ctx, F)
+    from props import C07 as _c07
+    _c07.no_stale_map_reads(ctx, F, 'C12-R8')
     ctx.not_decided('keeps every provided result that fits; hit results add up to the object count; idempotence of '
                     'generate_state (u32 arithmetic over runtime counts)')
 
